@@ -107,6 +107,10 @@ def enum_exprs(depth):
     return out
 
 
+# counts that are no plain decimal numbers: `int()` of the code reads `1_0` as 10, the documented grammar (and `specParse`)
+# has plain numbers only — outside `PlainNumbers` (Props/C06.lean: parse_agrees); the compile tie still compares the AST exactly
+NON_PLAIN = ["a{1_0}", "a{1,1_0}", "b{0_2,}", "(a | b){1_1} g", "a{2_}", "a{_2}", "g{1__0}", "a{01_0,1_1}"]
+
 MALFORMED = ["(a", "a)", "a{2", "a{,2}", "a{2,", "a |", "| a", "a b |", "()", "a++{", "a{x}", "a text", "g inline*",
              "c", "c+", "a c", "(c | text)+", "c{2,}", "a? c", "nosuch+", "a,b", "a;", "a{2,1}", "a{0}", "text+", "text{1,}"]
 
@@ -146,7 +150,7 @@ def run(ctx):
             parts.append(rng.choice(names) + rng.choice(["", "?", "{7}"]))
         return " ".join(parts)
     exprs = exprs + [long_expr() for _ in range(ctx.budget(25, 200))]
-    exprs = list(dict.fromkeys(exprs + MALFORMED))
+    exprs = list(dict.fromkeys(exprs + MALFORMED + NON_PLAIN))
     for e in exprs:
         nodes = {k: dict(v) for k, v in ENUM_NODES.items()}
         nodes["doc"] = {"content": e}
@@ -274,8 +278,17 @@ def run(ctx):
             o = dict(o, dead=False)
         model_accepts = o["parse"] == "ok" and not o.get("dead")
         ctx.count("class:" + (o["parse"] if o["parse"] != "ok" else ("dead-end" if o.get("dead") else "ok")))
+        plain = o.get("plain", True)
+        if not plain:
+            # a count that is no plain decimal number: not an expression of the documented grammar (the specification reader
+            # refuses it); the code's `int()` may read it — a leniency, outside the accept/reject comparison
+            ctx.count("outside-PlainNumbers")
+            if accepted:
+                ctx.count("outside-PlainNumbers:accepted-by-the-code")
+            if o["parse"] == "ok":
+                ctx.mismatch("c06-plain", replay, "specParse refuses an expression with a non-plain count", o)
         # every node type's expression must be acceptable for the schema to be built; for enum schemas only doc varies
-        if (name == "enum" or accepted) and not dead_unknown:
+        if (name == "enum" or accepted) and not dead_unknown and plain:
             if accepted != model_accepts and name == "enum":
                 ctx.violation("accept-reject", "Schema() and the documented grammar disagree on whether the expression is well-formed",
                               dict(replay, schema_built=accepted, model=o))
@@ -314,8 +327,14 @@ def run(ctx):
         if o["parse"] != "ok" or o.get("dead"):
             ctx.mismatch("compile-accept", replay, "accepted", o)
             continue
-        if not o.get("reSame"):
+        if not o.get("plain", True):
+            ctx.count("compile:outside-PlainNumbers")     # the two readers are expected to differ there (parse_agrees needs it)
+            if o.get("reSame"):
+                ctx.mismatch("compile-toRE", replay, "specParse refuses a non-plain count", o)
+        elif not o.get("reSame"):
             ctx.mismatch("compile-toRE", replay, "Expr.toRE (parseC e) = specParse e", o)
+        else:
+            ctx.count("compile_reSame")
         if o["ast"] != ast:
             ctx.mismatch("compile-ast", replay, ast, o["ast"])
         elif o["nfa"] != nfa_:
